@@ -148,9 +148,47 @@ WithPlaceholders ==
     DefCalMeasure(None, Qp, None, <<GX>>), DefCircuit("c", <<>>, <<>>, <<Reset(Some(Qp))>>),
     Label(TPh(1)), Jump(TPh(1)), JumpWhen(TPh(1), MR), JumpUnless(TPh(2), MR) }
 
+\* ---- list shapes: every list-valued field occurs with 0, 1, 2 and 3 elements somewhere in the alphabet, with
+\* pairwise distinct elements (a separator or prefix written only before the first / after the last element, two
+\* elements swapped, or a middle element dropped must change the text).  The kind-by-kind sets above vary the
+\* operands; this set varies the lengths.
+Q2 == Fixed(2)
+A == EVar("a")   B == EVar("b")   C == EVar("c")
+GV(n, q) == Gate(n, <<>>, <<QVar(q)>>, <<>>)
+ListShapes ==
+  { Gate("GA3", <<E1, E2, X>>, <<Q0, Q1, Qq>>, <<"CONTROLLED", "DAGGER", "FORKED">>),
+    Gate("GA1", <<X>>, <<Q17>>, <<"FORKED">>),
+    DefCal("GA3", <<A, E2, C>>, <<Q0, Qq, Q1>>, <<"DAGGER", "CONTROLLED", "DAGGER">>, <<GX, Nop, Fence(<<>>)>>),
+    DefCal("GA2", <<A, B>>, <<Q0>>, <<"FORKED">>, <<GX>>),
+    DefCalMeasure(Some("fast"), Qq, Some("addr"), <<GX, Nop, Fence(<<Qq>>)>>),
+    DefCircuit("CI1", <<"a">>, <<"q">>, <<GRXq>>),
+    DefCircuit("CI2", <<"a", "b">>, <<"q", "r">>, <<GRXq, GV("Y", "r")>>),
+    DefCircuit("CI3", <<"a", "b", "c">>, <<"q", "r", "s">>, <<GRXq, GV("Y", "r"), GV("Z", "s")>>),
+    DefGate("GA1", <<"a">>, SpecMatrix(<<<<A>>>>)),
+    DefGate("GA2", <<"a", "b">>, SpecMatrix(<<<<A, B>>, <<R(M0), R(M1)>>>>)),
+    DefGate("GA3", <<"a", "b", "c">>, SpecMatrix(<<<<A, B, C>>, <<R(M0), R(M1), R(M2)>>, <<C, B, A>>>>)),
+    DefGate("PE1", <<>>, SpecPerm(<<0>>)), DefGate("PE3", <<>>, SpecPerm(<<2, 0, 1>>)),
+    DefGate("UA1", <<"a", "b">>, SpecPauli(<<"p">>, <<PTerm("X", Inf("*", A, B), <<"p">>)>>)),
+    DefGate("UA3", <<"a", "b", "c">>, SpecPauli(<<"p", "q", "r">>,
+              <<PTerm("XYZ", A, <<"p", "q", "r">>), PTerm("Z", B, <<"q">>), PTerm("IX", C, <<"r", "p">>)>>)),
+    DefGate("SQ1", <<"a", "b">>, SpecSeq(<<"x">>, <<Gate("RX", <<A>>, <<QVar("x")>>, <<>>)>>)),
+    DefGate("SQ3", <<"a", "b", "c">>, SpecSeq(<<"x", "y", "z">>,
+              <<Gate("RX", <<A>>, <<QVar("x")>>, <<>>), Gate("CNOT", <<>>, <<QVar("y"), QVar("z")>>, <<>>),
+                Gate("U", <<B, C>>, <<QVar("z"), QVar("x"), QVar("y")>>, <<>>)>>)),
+    DefWaveform("wf", None, <<"a", "b">>, <<A, B>>), DefWaveform("wf", Some("sub"), <<"a", "b", "c">>, <<A, B, C, E1>>),
+    DefFrame(F0, <<AttrStr("DIRECTION", <<"t", "x">>), AttrExpr("INITIAL-FREQUENCY", E2), AttrStr("HARDWARE-OBJECT", S_sp)>>),
+    Declare("b", "BIT", 4, Some(Sharing("ro", <<Offset(1, "BIT")>>))),
+    Declare("b", "BIT", 4, Some(Sharing("ro", <<Offset(1, "BIT"), Offset(2, "REAL"), Offset(10, "OCTET")>>))),
+    Delay(E1, <<S_rf, S_sp, S_q>>, <<Q0, Q1, Qq>>), Delay(E1, <<>>, <<Q0, Q1, Q2>>), Fence(<<Q0, Q1, Qq>>),
+    Pulse(TRUE, Frame(S_rf, <<Q0, Q1, Qq>>), WfInv("flat", None, <<KV("a", E1), KV("b", E2), KV("c", X)>>)),
+    Capture(FALSE, Frame(S_rf, <<Q2, Q0, Q1>>), WfInv("flat", Some("x"), <<KV("a", E1), KV("b", X)>>), MT),
+    SwapPhases(Frame(S_rf, <<Q0, Q1>>), Frame(S_sp, <<Q1, Q2, Q0>>)),
+    Pragma("foo", <<PArgId("a"), PArgInt("1"), PArgId("b")>>, Some(S_sp)), Pragma("foo", <<PArgId("a")>>, None),
+    Call("f", <<CArgId("ro"), CArgMRef(MT), CArgImm(R(M2)), CArgId("Theta")>>), Call("f", <<CArgImm(R(Mh)), CArgImm(R(M2)), CArgImm(Imag(FALSE, M2))>>) }
+
 Alphabet == Gates \cup DefCals \cup DefCalMeasures \cup DefCircuits \cup DefGates \cup DefWaveforms \cup DefFrames
             \cup Declares \cup Measures \cup Resets \cup Delays \cup Fences \cup Pulses \cup Captures \cup RawCaptures
-            \cup FrameExprs \cup Swaps \cup Classical \cup Control \cup Pragmas \cup Calls
+            \cup FrameExprs \cup Swaps \cup Classical \cup Control \cup Pragmas \cup Calls \cup ListShapes
             \cup (IF Api THEN WithPlaceholders ELSE {})
 
 \* second instruction of a two-instruction program: one or two values per table, redefinitions, body instructions
